@@ -92,6 +92,7 @@ type pairWorld struct {
 	// Deliver decides the fate of each datagram the client emits (nil = deliver).
 	Deliver func(n int, dg []byte) bool
 	sent    int
+	phase   string
 }
 
 func (p *pairWorld) entry() client.GCAServer { return p.Addr.entry() }
